@@ -286,7 +286,7 @@ def check_notify_rows(P):
         srx = re.compile(row["scope"])
         n = 0
         for b in P.bodies.values():
-            if not srx.search(b.id) or not common.in_scope(b.id) or "::tests::" in b.id or "::test_" in b.id:
+            if not (srx.search(b.id) or srx.search(b.id.replace("fibre::<", "fibre::", 1))) or not common.in_scope(b.id) or "::tests::" in b.id or "::test_" in b.id:
                 continue
             pubs = [e for e in b.events if row["publish"](b, e)]
             if not pubs:
